@@ -43,6 +43,32 @@ def _is_boolean_valued(node: ast.AST) -> bool:
     return False
 
 
+def _is_name_or_attribute(node: ast.AST) -> bool:
+    while isinstance(node, ast.Attribute):
+        node = node.value
+
+    return isinstance(node, ast.Name)
+
+
+def _is_stable_operand(node: ast.AST) -> bool:
+    """Determine if an operand of and/or may be merged with an operand that has the same source
+    code, or be left out when it cannot change the outcome.
+
+    That is the case if evaluating it twice gives the same value (no calls except pure builtins),
+    and, for an expression made of literals only, if evaluating it does not raise (like 1 / 0).
+    """
+    if core.has_side_effect(node, constants.PURE_BUILTIN_FUNCTIONS):
+        return False
+
+    if not any(isinstance(child, (ast.Name, ast.Attribute)) for child in ast.walk(node)):
+        try:
+            core.literal_value(node)
+        except ValueError:
+            return False
+
+    return True
+
+
 def _truth_tested_nodes(root: ast.AST) -> Collection[ast.AST]:
     """Expressions of which only the truth value is used, or nothing at all.
 
@@ -376,6 +402,11 @@ def simplify_boolean_expressions(source: str) -> str:
     for node in core.walk(root, ast.BoolOp):
         if node not in truth_tested and not _is_boolean_valued(node):
             # The value of the expression may be one of its operands, and it is used
+            continue
+
+        if not all(_is_stable_operand(value) for value in node.values):
+            # Everything below treats operands with the same source code as the same value, and
+            # drops operands that cannot change the outcome.
             continue
 
         if isinstance(node.op, (ast.And, ast.Or)):
@@ -734,8 +765,9 @@ def simplify_boolean_expressions(source: str) -> str:
             if (
                 isinstance(operator, ast.Eq)
                 and core.unparse(node.left) == core.unparse(comparator)
-                and not core.has_side_effect(node.left, constants.SAFE_CALLABLES)
+                and _is_name_or_attribute(node.left)
             ):
+                # x == x, self.y == self.y
                 yield node, ast.Constant(value=True, kind=None)
 
             continue
